@@ -381,5 +381,227 @@ theorem specRemove_removeComp (fuel : Nat) (t : Table κ ω α) (k : κ) (hf : t
     rw [removeComp_absent fuel t k hk, if_neg hc]
     exact beq_self_eq_true _
 
+/-! ### `update_id` -/
+
+theorem set_append : ∀ (acc : Table κ ω α) (k : κ) (c : Comp κ ω α), k ∉ acc.keys →
+    Table.set acc k c = acc ++ [(k, c)]
+  | [], _, _, _ => rfl
+  | (k', c') :: rest, k, c, h => by
+    have hne : k' ≠ k := by
+      intro heq; apply h; simp [Table.keys, heq]
+    have hrest : k ∉ Table.keys rest := by
+      intro hm; apply h; simp only [Table.keys, List.map_cons, List.mem_cons]; exact Or.inr hm
+    simp only [Table.set, hne, if_false, List.cons_append]
+    rw [set_append rest k c hrest]
+
+theorem foldl_set_nodup : ∀ (ps : List (κ × Comp κ ω α)) (acc : Table κ ω α),
+    (ps.map (·.1)).Nodup → (∀ p ∈ ps, p.1 ∉ acc.keys) →
+    ps.foldl (fun t p => Table.set t p.1 p.2) acc = acc ++ ps
+  | [], acc, _, _ => by simp
+  | p :: rest, acc, hnd, hna => by
+    simp only [List.map_cons, List.nodup_cons] at hnd
+    simp only [List.foldl_cons]
+    rw [set_append acc p.1 p.2 (hna p (by simp))]
+    rw [foldl_set_nodup rest (acc ++ [(p.1, p.2)]) hnd.2]
+    · simp
+    · intro q hq hmem
+      have : q.1 ∈ acc.keys ∨ q.1 = p.1 := by
+        simpa [Table.keys] using hmem
+      rcases this with h | h
+      · exact hna q (by simp [hq]) h
+      · apply hnd.1
+        rw [← h]
+        exact List.mem_map.mpr ⟨q, hq, rfl⟩
+
+theorem ofPairs_nodup (ps : List (κ × Comp κ ω α)) (h : (ps.map (·.1)).Nodup) :
+    Table.ofPairs ps = ps := by
+  unfold Table.ofPairs
+  rw [foldl_set_nodup ps [] h (by simp [Table.keys])]
+  simp
+
+theorem rename_keys_nodup (old new : κ) : ∀ (t : Table κ ω α), t.keys.Nodup → new ∉ t.keys →
+    ((t.map fun p => if p.1 = old then (new, p.2) else p).map (·.1)).Nodup
+  | [], _, _ => by simp
+  | p :: rest, hnd, hnew => by
+    simp only [Table.keys, List.map_cons, List.nodup_cons, List.mem_cons, not_or] at hnd hnew
+    have ih := rename_keys_nodup old new rest hnd.2 (by simpa [Table.keys] using hnew.2)
+    simp only [List.map_cons, List.nodup_cons]
+    refine ⟨?_, ih⟩
+    intro hm
+    obtain ⟨q', hq', heq⟩ := List.mem_map.mp hm
+    obtain ⟨q, hq, rfl⟩ := List.mem_map.mp hq'
+    have hqk : q.1 ∈ rest.map (·.1) := List.mem_map.mpr ⟨q, hq, rfl⟩
+    by_cases hp : p.1 = old
+    · by_cases hqo : q.1 = old
+      · exact hnd.1 (by rw [hp, ← hqo]; exact hqk)
+      · simp only [hp, hqo, if_true, if_false] at heq
+        exact hnew.2 (by rw [← heq]; exact hqk)
+    · by_cases hqo : q.1 = old
+      · simp only [hp, hqo, if_true, if_false] at heq
+        exact hnew.1 heq
+      · simp only [hp, hqo, if_false] at heq
+        exact hnd.1 (by rw [← heq]; exact hqk)
+
+/-- As repaired, `update_id(old, new)` towards an identifier that is not yet in the dataset is the
+pure renaming: same entries in the same order, `old` replaced by `new` as key and in every link. -/
+theorem updateId_eq_specRename (t : Table κ ω α) (old new : κ) (hne : new ≠ old)
+    (hold : old ∈ t.keys) (hnew : new ∉ t.keys) (hnd : t.keys.Nodup) :
+    updateId true t old new = specRename old new t := by
+  have hc : t.keys.contains old = true := by simpa using hold
+  simp only [updateId, hne, if_false, hc, if_true]
+  rw [ofPairs_nodup _ (rename_keys_nodup old new t hnd hnew)]
+  simp only [specRename, List.map_map]
+  apply List.map_congr_left
+  intro p _
+  by_cases hp : p.1 = old
+  · cases h2 : p.2 <;> simp [hp, h2, Comp.rename]
+  · cases h2 : p.2 with
+    | prim a => simp [hp, h2, Comp.rename]
+    | derived l => simp [hp, h2, Comp.rename]
+
+theorem specRename_keys (t : Table κ ω α) (old new : κ) :
+    (specRename old new t).keys = t.keys.map fun x => if x = old then new else x := by
+  simp [specRename, Table.keys, List.map_map]
+
+theorem find_some_mem_keys : ∀ (t : Table κ ω α) (x : κ) (c : Comp κ ω α),
+    t.find x = some c → x ∈ t.keys
+  | [], _, _, h => by simp [Table.find] at h
+  | (k', c') :: rest, x, c, h => by
+    simp only [Table.find] at h
+    simp only [Table.keys, List.map_cons, List.mem_cons]
+    by_cases hk : k' = x
+    · exact Or.inl hk.symm
+    · simp only [hk, if_false] at h
+      exact Or.inr (find_some_mem_keys rest x c h)
+
+theorem find_specRename (old new : κ) : ∀ (t : Table κ ω α) (x : κ) (c : Comp κ ω α),
+    new ∉ t.keys → t.find x = some c →
+    (specRename old new t).find (if x = old then new else x) = some (c.rename old new)
+  | [], _, _, _, h => by simp [Table.find] at h
+  | (k', c') :: rest, x, c, hnew, h => by
+    have hk'new : k' ≠ new := by
+      intro heq; apply hnew; simp [Table.keys, heq]
+    have hrest : new ∉ Table.keys rest := by
+      intro hm; apply hnew; simp only [Table.keys, List.map_cons, List.mem_cons]; exact Or.inr hm
+    simp only [specRename, List.map_cons, Table.find]
+    simp only [Table.find] at h
+    by_cases hkx : k' = x
+    · subst hkx
+      simp only [if_true] at h
+      simp [Option.some.inj h]
+    · simp only [hkx, if_false] at h
+      have ih := find_specRename old new rest x c hrest h
+      have hxr : x ∈ Table.keys rest := find_some_mem_keys rest x c h
+      have hxnew : x ≠ new := fun heq => hrest (heq ▸ hxr)
+      have hren : (if k' = old then new else k') ≠ (if x = old then new else x) := by
+        by_cases h1 : k' = old <;> by_cases h2 : x = old <;> simp [h1, h2]
+        · exact hkx (h1.trans h2.symm)
+        · exact fun h => hxnew h.symm
+        · exact hk'new
+        · exact hkx
+      simp only [hren, if_false]
+      exact ih
+
+theorem Expr.evalPt_replace (opf : ω → α → α → α) (old new : κ) (g g' : κ → Option α)
+    (h : ∀ k u, g k = some u → g' (if k = old then new else k) = some u) :
+    ∀ (e : Expr κ ω α) (v : α), e.evalPt opf g = some v → (e.replace old new).evalPt opf g' = some v
+  | .const c, v, hv => by simpa [Expr.evalPt, Expr.replace] using hv
+  | .cid k, v, hv => by
+    simp only [Expr.evalPt] at hv
+    simp only [Expr.replace, Expr.evalPt]
+    exact h k v hv
+  | .bin o l r, v, hv => by
+    simp only [Expr.evalPt] at hv
+    simp only [Expr.replace, Expr.evalPt]
+    cases hl : l.evalPt opf g with
+    | none => simp [hl] at hv
+    | some a =>
+      cases hr : r.evalPt opf g with
+      | none => simp [hl, hr] at hv
+      | some b =>
+        rw [Expr.evalPt_replace opf old new g g' h l a hl, Expr.evalPt_replace opf old new g g' h r b hr]
+        simpa [hl, hr] using hv
+
+theorem PExpr.evalPt_replace (opf : ω → α → α → α) (negf : α → α) (old new : κ) (g g' : κ → Option α)
+    (h : ∀ k u, g k = some u → g' (if k = old then new else k) = some u) :
+    ∀ (e : PExpr κ ω α) (v : α), e.evalPt opf negf g = some v →
+      (e.replace old new).evalPt opf negf g' = some v
+  | .num c, v, hv => by simpa [PExpr.evalPt, PExpr.replace] using hv
+  | .ref k, v, hv => by
+    simp only [PExpr.evalPt] at hv
+    simp only [PExpr.replace, PExpr.evalPt]
+    exact h k v hv
+  | .neg e, v, hv => by
+    simp only [PExpr.evalPt] at hv
+    simp only [PExpr.replace, PExpr.evalPt]
+    cases he : e.evalPt opf negf g with
+    | none => simp [he] at hv
+    | some a =>
+      rw [PExpr.evalPt_replace opf negf old new g g' h e a he]
+      simpa [he] using hv
+  | .bin o l r, v, hv => by
+    simp only [PExpr.evalPt] at hv
+    simp only [PExpr.replace, PExpr.evalPt]
+    cases hl : l.evalPt opf negf g with
+    | none => simp [hl] at hv
+    | some a =>
+      cases hr : r.evalPt opf negf g with
+      | none => simp [hl, hr] at hv
+      | some b =>
+        rw [PExpr.evalPt_replace opf negf old new g g' h l a hl,
+          PExpr.evalPt_replace opf negf old new g g' h r b hr]
+        simpa [hl, hr] using hv
+
+theorem mapM'_rename (old new : κ) (g g' : κ → Option α)
+    (h : ∀ k u, g k = some u → g' (if k = old then new else k) = some u) :
+    ∀ (fs : List κ) (us : List α), mapM' g fs = some us →
+      mapM' g' (fs.map fun k => if k = old then new else k) = some us
+  | [], us, hu => by simpa [mapM'] using hu
+  | k :: rest, us, hu => by
+    simp only [mapM'] at hu
+    simp only [List.map_cons, mapM']
+    cases hk : g k with
+    | none => simp [hk] at hu
+    | some a =>
+      cases hr : mapM' g rest with
+      | none => simp [hk, hr] at hu
+      | some as =>
+        rw [h k a hk, mapM'_rename old new g g' h rest as hr]
+        simpa [hk, hr] using hu
+
+/-- Renaming an identifier keeps every value: whatever component `x` evaluated to at a data index
+before, the renamed table evaluates to at the renamed identifier. -/
+theorem specAt_rename (I : Interp ω α) (old new : κ) (t : Table κ ω α) (hnew : new ∉ t.keys)
+    (idx : List Int) : ∀ (fuel : Nat) (x : κ) (v : α), specAt I fuel t idx x = some v →
+      specAt I fuel (specRename old new t) idx (if x = old then new else x) = some v
+  | 0, _, _, h => by simp [specAt] at h
+  | fuel + 1, x, v, h => by
+    have ih := specAt_rename I old new t hnew idx fuel
+    simp only [specAt] at h
+    cases hf : t.find x with
+    | none => simp [hf] at h
+    | some c =>
+      simp only [specAt, find_specRename old new t x c hnew hf]
+      cases c with
+      | prim a => simpa [hf, Comp.rename] using h
+      | derived l =>
+        cases l with
+        | binary e =>
+          simp only [hf] at h
+          simp only [Comp.rename, Link.replace]
+          exact Expr.evalPt_replace I.opf old new _ _ ih e v h
+        | func fs f rv =>
+          simp only [hf] at h
+          simp only [Comp.rename, Link.replace]
+          cases hm : mapM' (specAt I fuel t idx) fs with
+          | none => simp [hm] at h
+          | some us =>
+            rw [mapM'_rename old new _ _ ih fs us hm]
+            simpa [hm] using h
+        | parsed p =>
+          simp only [hf] at h
+          simp only [Comp.rename, Link.replace]
+          exact PExpr.evalPt_replace I.opf I.negf old new _ _ ih p v h
+
 end
 end GlueVerif.Derived
